@@ -607,9 +607,13 @@ WritesTTL ==
 FinalWriteTTL ==
   [][\A p \in Procs : pc[p] = "bwrite" /\ pc'[p] # "bwrite" /\ Len(writes') > Len(writes) =>
         writes'[Len(writes')].ttl = (IF HasCell[p] THEN loc[p].cell ELSE 0)]_vars
+(* SkipRead forces a rebuild whose result is still stored: a Get with SkipRead that ran alone and succeeded returns a   *)
+(* value a builder produced (never the cached one) and the backend holds it (unless it is cache.NoOp or was changed     *)
+(* from outside).                                                                                                       *)
 SkipReadBuilds ==
-  \A p \in Procs : Skip[p] /\ res[p].done /\ res[p].err = NoVal /\ ~FailHard =>
-        res[p].v \in produced[K(p)] \cup stored[K(p)]
+  \A p \in Procs : (Cardinality(Procs) = 1 /\ Skip[p] /\ res[p].done /\ res[p].err = NoVal) =>
+        /\ res[p].v \in produced[K(p)]
+        /\ (~NoOpBe /\ ~EnvOps /\ pc[p] = "done") => (be[K(p)] # None /\ be[K(p)].v = res[p].v)
 
 (* C18: metrics equal event counts once quiet (and at every state).         *)
 MetricsOK ==
